@@ -189,9 +189,9 @@ Definition cache_lookup (on : bool) (kpq kp : ckey) (cache : cache_t) : option c
   if on then match cache_get kpq cache with Some e => Some e | None => cache_get kp cache end else None.
 
 (** [Cors::is_part_of_origin]: the request is of the same origin as its [Origin] header when the scheme and the
-    AUTHORITY of its URI equal the header's.  The URI is "http://localhost" ++ target: a target that does not
+    AUTHORITY of its URI equal the header's.  For a URI "http://" ++ host ++ target: a target that does not
     start with '/', '?' or '#' lengthens the authority, so an [Origin] of the site itself (kinds 1, 4) is then a
-    foreign one (kinds 2, 3); and a Host header naming the other site makes ITS [Origin] the request's own. *)
+    foreign one (kinds 2, 3); and a host naming the other site makes ITS [Origin] the request's own. *)
 Fixpoint take_authority (s : bytes) : bytes :=
   match s with
   | [] => []
@@ -208,6 +208,24 @@ Definition eff_kind_h (host_header target : bytes) (okind : N) : N :=
   else okind.
 Definition eff_kind : bytes -> N -> N := eff_kind_h (B "localhost").
 
+(** kvarn's HTTP/1 readers ([kvarn_async::read::request], [application::parse_http_1]) since cdbcb3a / 2fb2d8c:
+    the value of the Host header enters the URI only when it is a URI authority by itself
+    ([uri::Authority::try_from(host).is_ok()]: not empty, and [validate_authority_bytes] ends at its last byte);
+    then the URI is scheme "://" host target.  Otherwise (a value like "localhost/..", "localhost?", "a b", "[::1", "")
+    the header only chooses the host: an origin-form target (first byte '/') is the URI by itself — no scheme, no
+    authority — and any other target is refused ([Error::NoHost]: the connection is closed without an answer). *)
+Definition host_is_authority (hh : bytes) : bool :=
+  match authority_end hh with Some e => Nat.eqb e (length hh) | None => false end.
+Definition uri_of_h1 (hh t : bytes) : option (bytes * option bytes) :=
+  if host_is_authority hh then uri_parse (B "http://" ++ hh ++ t)
+  else if starts_with [c_slash] t then uri_parse t
+  else None.
+(** a URI without scheme and authority is of no [Origin] header's origin: every request with an [Origin] header is a
+    cross-origin one (kinds 1, 4 become 2, 3) *)
+Definition eff_kind_h1 (hh target : bytes) (okind : N) : N :=
+  if host_is_authority hh then eff_kind_h hh target okind
+  else if okind =? 1 then 2 else if okind =? 4 then 3 else okind.
+
 (** what can be written into an HTTP/1.1 request line (or an HTTP/2 header field) without changing its framing *)
 Definition wire_ok (s : bytes) : bool :=
   negb (is_empty s) && forallb (fun c => (32 <? c) && negb (c =? 127)) s.
@@ -221,11 +239,15 @@ Record front := {
   f_sendable : bytes -> bytes -> bool;
   f_headless : bool
 }.
-(** in process (harness/src/c00pipe.rs make_request) and kvarn's HTTP/1 readers: "http://" ++ Host header ++ target *)
+(** in process: the harness (harness/src/c00pipe.rs make_request) builds the request and hands it to
+    [kvarn::handle_cache]; its URI is "http://" ++ Host header ++ target whatever the header's value is (so a
+    Host header "localhost/.." puts "/.." in front of the target's path: URIs no reader of kvarn builds any more,
+    but which [handle_cache] must treat like any other) *)
 Definition front_inproc_h (hh : bytes) : front :=
   {| f_uri := uri_of hh; f_kind := eff_kind_h hh; f_sendable := fun _ _ => true; f_headless := false |}.
+(** HTTP/1.1 over a connection: kvarn's reader builds the URI ([uri_of_h1]) *)
 Definition front_h1_h (hh : bytes) : front :=
-  {| f_uri := uri_of hh; f_kind := eff_kind_h hh; f_sendable := fun m t => wire_ok m && wire_ok t; f_headless := true |}.
+  {| f_uri := uri_of_h1 hh; f_kind := eff_kind_h1 hh; f_sendable := fun m t => wire_ok m && wire_ok t; f_headless := true |}.
 Definition front_inproc : front := front_inproc_h (B "localhost").
 Definition front_h1 : front := front_h1_h (B "localhost").
 (** HTTP/2: the h2 crate builds the URI from [:scheme], [:authority] and [PathAndQuery::from_maybe_shared(:path)];
